@@ -494,3 +494,10 @@ func JSON(v any) string {
 const EX = "http://ex.org/"
 
 func sortStrings(s []string) { sort.Strings(s) }
+
+func imin(a, b int) int {
+	if a < b {
+		return a
+	}
+	return b
+}
